@@ -75,6 +75,8 @@ pub struct SessionResult {
     pub transcript: u64,
     /// facilities the session touched (C16): bit0 Up/Down pressed, bit1 Tab pressed, bit2 help-shaped Enter
     pub touched: u32,
+    /// hooked editor / history state after the last operation (None when the session ended early)
+    pub final_state: Option<(EdState, Option<HistRaw>)>,
 }
 
 // ------------------------------------------------------------------ (de)serialisation
@@ -1012,6 +1014,12 @@ pub fn run_session<C: Autocomplete + Help>(
         if res.found.len() > 8 {
             break;
         }
+        if i + 1 == ops.len() {
+            res.final_state = Some((post.clone(), post_hist.clone()));
+        }
+    }
+    if ops.is_empty() {
+        res.final_state = Some((rig.editor(), rig.history()));
     }
     res.transcript = th;
     res
